@@ -462,6 +462,55 @@ class SymRange:
         self.stop = stop
 
 
+def dtype_item(item):
+    """concrete part (nothing symbolic): a Grid of the given dtype, with or without save memory, walks through layout changes,
+    save and restore on every rank of the simulated grid; every Alltoall must pair buffers of one datatype and all buffers of the
+    grid must have the dtype asked for"""
+    nprocs, dtype_name, save = item
+    res = H.worker_result()
+    H.install_fake_mpi()
+    layout = H.repo_import('pygyro.model.layout')
+    gridm = H.repo_import('pygyro.model.grid')
+    shape = (4, 3, 4, 3)
+    layouts = {'flux_surface': [0, 3, 1, 2], 'v_parallel': [0, 2, 1, 3], 'poloidal': [3, 2, 1, 0]}
+    eta = [np.arange(n, dtype=float) for n in shape]
+    dt = dict(float=float, complex=np.complex128)[dtype_name]
+    world = simmpi.World(int(np.prod(nprocs)))
+
+    def rankfn(comm):
+        h = layout.getLayoutHandler(comm, dict(layouts), list(nprocs), eta)
+        g = gridm.Grid(eta, [None] * 4, h, 'v_parallel', comm=comm, dtype=dt, allocateSaveMemory=save)
+        g.getAllData()[...] = 1.0 + comm.Get_rank()
+        g.setLayout('flux_surface')
+        g.setLayout('poloidal')
+        if save:
+            g.saveGridValues()
+            g.setLayout('v_parallel')
+            g.restoreGridValues()
+        g.setLayout('v_parallel')
+        return str(g.getAllData().dtype)
+    res['obligations'] += 1
+    try:
+        import warnings
+        with warnings.catch_warnings():
+            warnings.simplefilter('ignore')
+            out = world.run(rankfn)
+        want = np.dtype(dt).name
+        if any(o != want for o in out):
+            res['violations'].append(('branches:dtype', 'a %s grid (save memory %s) ends with data of dtype %s on process grid %s' % (want, save, sorted(set(out)), list(nprocs)),
+                                      dict(kind='dtype', item=[list(nprocs), dtype_name, save])))
+        else:
+            res['discharged'] += 1
+            res['nontrivial'].append('dtype|%s|%s|%s' % (nprocs, dtype_name, save))
+    except (simmpi.MPIMismatch, simmpi.Deadlock) as e:
+        res['violations'].append(('branches:dtype', '%s grid, save memory %s, process grid %s: %s: %s' % (dtype_name, save, list(nprocs), type(e).__name__, str(e)[:200]),
+                                  dict(kind='dtype', item=[list(nprocs), dtype_name, save])))
+    except Exception as e:
+        res['violations'].append(('branches:dtype', '%s grid, save memory %s, process grid %s: a rank raises %s: %s' % (dtype_name, save, list(nprocs), type(e).__name__, str(e)[:200]),
+                                  dict(kind='dtype', item=[list(nprocs), dtype_name, save])))
+    return res
+
+
 def setupsave_item(item):
     """root/non-root x folder given/not: broadcast pairing (os and print stubbed)"""
     nranks, given = item
@@ -580,6 +629,10 @@ def main():
     for n in (1, 2, 3):
         for given in (False, True):
             run.merge(setupsave_item((n, given)))
+    for grid in ([(2, 1), (2, 2)] if quick else [(2, 1), (1, 2), (2, 2), (3, 1)]):
+        for dn in ('float', 'complex'):
+            for save in (False, True):
+                run.merge(dtype_item((grid, dn, save)))
     run.stubs = LS.stubs() + ['set / min in a copy of pygyro.model.layout: symbolic iteration-order priorities', 'mpi4py.MPI: lib/simmpi (raises on mismatch, detects deadlock)',
                               'os / open in a copy of savingTools']
     run.bounds = dict(routes='every connected graph on <= %d named nodes (all / several name assignments) and all 112 connected 6-node graphs up to isomorphism under %d name assignments, all iteration orders' % (nmax, len(labelings)),
